@@ -35,6 +35,12 @@ from core import Case
 
 PID = "C19"
 LEAN_MODULES = ["MirProofs.Props.C19", "MirProofs.Props.C19_LS"]
+# the criteria, the decomposition arithmetic (and, where translated, the selection / framewise glue) of separation.py are
+# REGENERATED from the source (translate/sepcrit.py -> lean/MirGen/SepCrit.lean); Props/C19_Gen.lean proves the generated
+# definitions equal to the hand model for all inputs; suite `gen_sepcrit` runs them (driver op `gen.sepcrit`) against the
+# real functions
+LEAN_MODULES += ["MirProofs.Props.C19_Gen"]
+TRANSLATOR_PARTS = ["sepcrit"]
 RULE = ("stub suites: exact small-integer lattice, ties and silent stretches generated on purpose; real suites: "
         "gaussian references, mixed/filtered/noise estimates, nsrc 1-3, nchan 1-2; non-trivial = the public "
         "function returns values (no exception, non-empty input)")
@@ -985,6 +991,133 @@ def suite_ls_eval(rng, tier, shard, nshards):
                    post=lambda v: [_ratio_db(v[0]), _ratio_db(v[1]), _ratio_db(v[2]), v[3]])
 
 
+# ----------------------------------------------------------------------------------------
+# suite gen_sepcrit: the GENERATED definitions (lean/MirGen/SepCrit.lean, driver op `gen.sepcrit`) vs the real functions;
+# lean/MirModel/PySep.lean is the translator's semantic assumption
+
+def _gs_available():
+    """the functions the translator emitted on THIS run (`gen.sepcrit "?"`): cases are generated for those only — a function
+    that left the subset is reported as a translator problem / broken theorems, never as a disagreeing input"""
+    import core
+    import proto
+    try:
+        outs = core.run_driver(["0 gen.sepcrit %s\n" % proto.enc("?")])
+        v = proto.dec_line(outs[0])[1]
+    except Exception:  # noqa: BLE001
+        return set()
+    return set(v) if isinstance(v, list) else set()
+
+
+def _gs_retarget(case, fn):
+    """a case of a hand-model suite asked of the generated definition instead"""
+    return Case("gen.sepcrit", [fn] + list(case.args), case.call, tol=case.tol, tag="gen %s %s" % (fn, case.tag),
+                info=dict(case.info or {}, op="gen.sepcrit", fn=fn), nontrivial=case.nontrivial, post=case.post)
+
+
+def _int_rows(rng, nrow, n, pzero=0.3, lo=-3, hi=3):
+    return np.array([[0.0 if rng.random() < pzero else float(rng.randint(lo, hi)) for _ in range(n)]
+                     for _ in range(nrow)]).reshape(nrow, n)
+
+
+def _gs_crit_cases(rng, ncase):
+    for _ in range(ncase):
+        images = rng.random() < 0.5
+        nrow, n = (rng.choice([1, 2]) if images else 1), rng.randint(1, 5)
+        comps = [_int_rows(rng, nrow, n, pzero=rng.choice([0.2, 0.5])) for _ in range(4)]
+        z = rng.random()
+        if z < 0.15:
+            comps[3][:] = 0.0          # no artifacts: SAR = +inf
+        elif z < 0.3:
+            comps[2][:] = 0.0          # no interference: SIR = +inf
+        elif z < 0.4:
+            comps[0][:] = 0.0
+            comps[1][:] = 0.0          # zero numerators: -inf
+        elif z < 0.45:
+            comps[2][:] = -comps[3]    # e_interf + e_artif = 0: SDR (sources) = +inf
+        cargs = [rows_fr(c) for c in comps]
+        info = {"comps": [c.tolist() for c in comps], "images": images}
+        if images:
+            yield Case("gen.sepcrit", ["_bss_image_crit"] + cargs,
+                       lambda comps=comps: [float(x) for x in sep._bss_image_crit(*comps)], tol=1e-9,
+                       tag="gen image_crit", info=info, nontrivial=True)
+        else:
+            flat = [c[0] for c in comps]
+            yield Case("gen.sepcrit", ["_bss_source_crit"] + cargs,
+                       lambda flat=flat: [float(x) for x in sep._bss_source_crit(*flat)], tol=1e-9,
+                       tag="gen source_crit", info=info, nontrivial=True)
+
+
+def _gs_decomp_cases(rng, ncase):
+    """`_bss_decomp_mtifilt` with `_project` replaced by a recorded pair of integer vectors (the generated definition takes
+    `_project` as a parameter; the driver is sent the same pair)"""
+    for _ in range(ncase):
+        nsrc, n, flen = rng.randint(1, 3), rng.randint(1, 5), rng.randint(1, 3)
+        j = rng.randrange(nsrc)
+        N = n + flen - 1
+        fault = rng.choice(["none"] * 6 + ["j_range", "flen0", "proj_short", "proj_one", "est_long", "est_short", "est_one"])
+        ref = _int_rows(rng, nsrc, n)
+        est = _int_rows(rng, 1, n)[0]
+        lt = la = N
+        if fault == "j_range":
+            j = nsrc + rng.randint(0, 1)
+        elif fault == "flen0":
+            flen = 0
+        elif fault == "proj_short":
+            lt, la = rng.choice([(N - 1, N), (N, N + 1), (N + 2, N + 2)])
+        elif fault == "proj_one":
+            lt, la = rng.choice([(1, N), (N, 1), (1, 1)])
+        elif fault == "est_long":
+            est = _int_rows(rng, 1, N + rng.randint(1, 2))[0]
+        elif fault == "est_short":
+            est = _int_rows(rng, 1, max(1, n - 1))[0]
+        elif fault == "est_one":
+            est = _int_rows(rng, 1, 1)[0]
+        pT = _int_rows(rng, 1, max(lt, 0))[0]
+        pA = pT.copy() if nsrc == 1 else _int_rows(rng, 1, max(la, 0))[0]
+
+        def call(ref=ref, est=est, j=j, flen=flen, pT=pT, pA=pA):
+            seq = [pT.copy(), pA.copy()]
+
+            def stub(M, e, f):
+                return seq.pop(0)
+            with patched(_project=stub):
+                return [np.asarray(c, dtype=float) for c in sep._bss_decomp_mtifilt(ref, est, j, flen)]
+        yield Case("gen.sepcrit", ["_bss_decomp_mtifilt", rows_fr(ref), [Fr(x) for x in est.tolist()], j, flen,
+                                   [Fr(x) for x in pT.tolist()], [Fr(x) for x in pA.tolist()]], call, tol=1e-12,
+                   tag="gen decomp %s" % fault,
+                   info={"fault": fault, "ref": ref.tolist(), "est": est.tolist(), "j": j, "flen": flen,
+                         "pT": pT.tolist(), "pA": pA.tolist()}, nontrivial=(fault == "none"))
+
+
+def _suite_gen_sepcrit(rng, tier, shard, nshards):
+    big = tier != "quick"
+    vals = [Fr(0), Fr(1, 4), Fr(3, 8), Fr(1), Fr(2), Fr(10), Fr(100), Fr(1, 1024), Fr(12345, 16), Fr(10 ** 12)]
+    for i, (a, b) in enumerate((a, b) for a in vals for b in vals):
+        if i % nshards == shard:
+            yield Case("gen.sepcrit", ["_safe_db", a, b], lambda a=a, b=b: sep._safe_db(np.float64(a), np.float64(b)),
+                       tag="gen safe_db " + ("den0" if b == 0 else ("num0" if a == 0 else "ratio")),
+                       info={"num": str(a), "den": str(b)}, nontrivial=True)
+    yield from _gs_crit_cases(rng, 400 if big else 60)
+    yield from _gs_decomp_cases(rng, 600 if big else 90)
+    # the existing stub streams asked of the generated definitions (same stand-ins for the kernel / the non-framewise
+    # function, np.empty poisoned)
+    for c in suite_silent(rng, tier, shard, nshards):
+        yield _gs_retarget(c, "_any_source_silent")
+    for _ in range(600 if big else 80):
+        yield _gs_retarget(_select_case(rng, images=False), "bss_eval_sources")
+    for _ in range(1200 if big else 160):
+        images = rng.random() < 0.5
+        yield _gs_retarget(_framewise_case(rng, images=images),
+                           "bss_eval_images_framewise" if images else "bss_eval_sources_framewise")
+
+
+def suite_gen_sepcrit(rng, tier, shard, nshards):
+    avail = _gs_available()
+    for c in _suite_gen_sepcrit(rng, tier, shard, nshards):
+        if c.op != "gen.sepcrit" or c.args[0] in avail:
+            yield c
+
+
 SUITES = {
     "safe_db": suite_safe_db,
     "permutations": suite_permutations,
@@ -999,6 +1132,7 @@ SUITES = {
     "ls_eval": suite_ls_eval,
     "ls_images": suite_ls_images,
     "ls_singular": suite_ls_singular,
+    "gen_sepcrit": suite_gen_sepcrit,
 }
 
 
